@@ -95,6 +95,12 @@ CHECKS = {
          "and compared exactly with the model; cbrt(-x) under the mirrored mode is compared with -cbrt(x). Kernel-checked so far: zero case; cbrt_spec is listed as open in DESIGN.md.",
          "PARTIAL: decided per sampled input by the certificate oracle. Trusted: nth_root(3) = floor cube root, Lean kernel, extractor, harness/driver.",
          "Lean 4 executable model + exact rounding certificate oracle + differential correspondence; partial proof", "DESIGN.md §5 C11"),
+ "C12": ("PARTIAL BY NATURE. Kernel-checked for all inputs: the Newton step is exact and squares the residual (1 - x r' = (1 - x r)^2, r' <= 1/x), negation commutes with the reciprocal under the "
+         "mirrored mode (C12_neg_mirror), sign copying, zero/one shortcuts. NOT proved (stated as the proposition C12_inverse_full): termination for every input/guess and the one-unit bound on exit "
+         "(upstream itself carried a TODO). That gap is closed per sampled input: every result of the real code is judged exactly (sign, |R x - 1| < unit*x, exact when 1/x has <= p digits) and "
+         "compared exactly with the model, which receives the real f64 guess through a hook and reports non-termination within 400 steps.",
+         "Trusted: f64 initial guess (hook), Lean kernel, extractor, harness/driver. The headline bound is established per sampled input by an exact certificate, not for all inputs.",
+         "Lean 4 structural theorems + exact certificate oracle + differential correspondence; partial proof", "DESIGN.md §5 C12"),
 }
 
 NOT_YET = "check under construction in this round (not yet claimed); see DESIGN.md §11 order of work"
